@@ -520,7 +520,11 @@ def compare_read(ctx, where, res, want_rows, carried, sub, has_end=True):
 
 def compare_auto(ctx, variant, fmt, explicit, path, sub):
     """Auto-detection clause: read_auto returns the very table the format's own parser returns."""
-    got = ctx.call(tabio.read_auto, path)
+    # every auto-detected read goes through one and the same path, whose content changes format from read to read
+    # (detection has to look at the file that is there now, not at what the path held before)
+    shared = os.path.join(tmpdir(), "auto-detect-input")
+    shutil.copyfile(path, shared)
+    got = ctx.call(tabio.read_auto, shared)
     if isinstance(explicit, Exc):
         return
     if isinstance(got, Exc):
